@@ -355,6 +355,30 @@ def rule_m4(ctx) -> None:
         ctx.finding("C09-M4", "utils.merge_two_mols:combine", m2.loc(), "merge_two_mols is no longer CombineMols of both molecules plus a single new bond")
 
 
+def rule_m10(ctx) -> None:
+    """A new bond costs each of its two atoms `bond order` hydrogens, once.  M4 pins the one place where that is done
+    (`_fix_Hs` in MergeRule.apply, before merge_two_mols).  Any second site on the merge path that lowers explicit
+    hydrogen counts releases them twice for atoms that carry two or more ([NH4+], [13CH4], [SiH4])."""
+    ctx.rule("C09-M10", "explicit hydrogen counts are changed only by the hydrogen-fixing helper of MergeRule.apply", 1)
+    prog = ctx.prog
+    f = prog.func(RULES + ".MergeRule.apply")
+    fix = f.nested.get("_fix_Hs")
+    ctx.require(fix is not None, "MergeRule.apply lost its _fix_Hs helper")
+    sites = []
+    for q, g in sorted(prog.functions.items()):
+        if g.module.name not in MACHINERY:
+            continue
+        for c in calls(g):
+            if isinstance(c.func, ast.Attribute) and c.func.attr == "SetNumExplicitHs":
+                sites.append((g, c))
+    ctx.require(sites, "no SetNumExplicitHs call left in the merge machinery")
+    for g, c in sites:
+        ok = g is fix
+        ctx.instance("C09-M10", "%s: %s" % (g.qualname.split("synrbl.SynMCSImputer.", 1)[-1], unparse(c)[:60]), g.loc(c), ok=ok)
+        if not ok:
+            ctx.finding("C09-M10", "%s:second-hydrogen-release" % g.qualname.split("synrbl.SynMCSImputer.", 1)[-1], g.loc(c), "%s changes explicit hydrogen counts (%s) in addition to _fix_Hs of MergeRule.apply: hydrogens of the bonded atoms are released twice, so an atom written with two or more hydrogens ends one short" % (g.name, unparse(c)[:60]))
+
+
 def rule_m5(ctx) -> None:
     """No loop of the merge machinery iterates the live compound list while
     its body (transitively) adds to or removes from that list."""
@@ -393,6 +417,49 @@ def rule_m5(ctx) -> None:
             if bad:
                 ctx.finding("C09-M5", "%s:mutates-iterated-list" % q.split("synrbl.", 1)[-1], f.loc(loop), "the loop iterates the live list %s while its body reaches %s: the iterator skips the element after every removal, so compounds silently drop out of the merged product" % (unparse(it), ", ".join(b.split(".")[-1] for b in bad)))
     ctx.require(n >= 1, "no loop over the live compound list found in the merge machinery")
+
+
+def rule_m9(ctx) -> None:
+    """merge() sorts the compounds of the set into the lists it goes on to merge / concatenate.  Every compound must be
+    accounted for: each path through the body of that loop hands the compound (or, for a deactivated one, its rules) to
+    a collector.  A path that falls through drops the compound - and its atoms - from the merged product silently."""
+    from ..model import clone, set_parents
+
+    ctx.rule("C09-M9", "the classification loop of merge() hands every compound to a collector on every path", 1)
+    f = ctx.prog.func(MERGE)
+    n = 0
+    for loop in [x for x in own_nodes(f.node) if isinstance(x, ast.For) and isinstance(x.target, ast.Name)]:
+        it = loop.iter
+        if not (isinstance(it, ast.Attribute) and it.attr == "compounds"):
+            continue
+        var = loop.target.id
+        n += 1
+        body = clone(loop.body)
+        fn = ast.FunctionDef(name="_body", args=ast.arguments(posonlyargs=[], args=[ast.arg(arg=var)], kwonlyargs=[], kw_defaults=[], defaults=[]), body=body, decorator_list=[], lineno=loop.lineno, col_offset=0)
+        for x in ast.walk(fn):
+            for fld, val in list(ast.iter_fields(x)):
+                if isinstance(val, list):
+                    for i, y in enumerate(val):
+                        if isinstance(y, ast.Continue):
+                            val[i] = ast.copy_location(ast.Return(value=None), y)
+        ast.fix_missing_locations(fn)
+        set_parents(fn)
+        cfg = CFG(fn)
+
+        def accounts(nd) -> bool:
+            a = getattr(nd, "ast", None)
+            if a is None or nd.kind != "stmt":
+                return False
+            for c in ast.walk(a):
+                if isinstance(c, ast.Call) and isinstance(c.func, ast.Attribute) and c.func.attr in ("append", "extend", "add", "insert", "concat") and any(isinstance(z, ast.Name) and z.id == var for arg in c.args for z in ast.walk(arg)):
+                    return True
+            return False
+
+        ok, _ = cfg.every_path_to_exit_passes(cfg.entry, accounts)
+        ctx.instance("C09-M9", "merge: every path through the loop over %s collects %s" % (unparse(it), var), f.loc(loop), ok=ok)
+        if not ok:
+            ctx.finding("C09-M9", "merge.merge:compound-dropped", f.loc(loop), "a path through the classification loop of merge() hands the compound %r to no collector: such a compound (e.g. one without boundaries that is not a catalyst) vanishes from the merged product with its atoms" % var)
+    ctx.require(n >= 1, "merge() no longer classifies compound_set.compounds in a loop")
 
 
 def rule_m6(ctx) -> None:
@@ -557,6 +624,8 @@ def rule_m8(ctx) -> None:
 
 
 def check(ctx) -> None:
+    rule_m10(ctx)
+    rule_m9(ctx)
     rule_m8(ctx)
     rule_m7(ctx)
     rule_m6(ctx)
